@@ -16,7 +16,7 @@ sys.path.insert(0, os.path.dirname(os.path.abspath(__file__)))
 
 from tzverif import report  # noqa: E402
 
-LEVELS = {"C15": "proof", "C19": "proof", "C07": "other"}
+LEVELS = {"C15": "proof", "C19": "proof"}
 
 
 def main():
